@@ -23,10 +23,12 @@ pub fn def() -> CheckDef {
                network with one extra regulation constraint must give the same states for every colour that stays valid. Non-trivial: the \
                formula's answer differs between at least two of the compared colours; distinct by (network, formula).",
         assumptions: &["the harness's instantiation (truth table -> DNF) is independent of the library; regulation flags of the instantiated network are dropped"],
-        cases: |t| if t == Tier::Quick { 2500 } else { 120_000 },
+        cases: |t| (if t == Tier::Quick { 2500 } else { 120_000 }) + super::big::count(t),
         needs: |t| {
             let m = if t == Tier::Quick { 1 } else { 30 };
-            vec![("distinct_nontrivial", 150 * m), ("colours_compared", 5000 * m), ("networks_with_shared_symbol", 50 * m), ("witness_comparisons", 2000 * m), ("constraint_variant_comparisons", 500 * m)]
+            let big_min = super::big::count(t) / 2;
+            vec![
+                ("big_model_cases_completed", big_min),("distinct_nontrivial", 150 * m), ("colours_compared", 5000 * m), ("networks_with_shared_symbol", 50 * m), ("witness_comparisons", 2000 * m), ("constraint_variant_comparisons", 500 * m)]
         },
         run,
         prelude: None,
@@ -92,7 +94,12 @@ pub fn instantiate(net: &Net, interp: &Interp) -> Net {
     out
 }
 
-fn run(rng: &mut Rng, _idx: u64, tier: Tier) -> CaseOut {
+fn run(rng: &mut Rng, idx: u64, tier: Tier) -> CaseOut {
+    let small: u64 = if tier == Tier::Quick { 2500 } else { 120_000 };
+    if idx >= small {
+        // bundled benchmark-size models (child process, see bigrun.rs / big.rs)
+        return super::big::run("C20", idx - small, rng, tier);
+    }
     let mut nopts = NetOpts::default();
     nopts.kind_weights = [2, 5, 5, 1];
     if tier == Tier::Thorough {
@@ -256,10 +263,13 @@ fn run(rng: &mut Rng, _idx: u64, tier: Tier) -> CaseOut {
             if w2.cs.bits == world.cs.bits && w2.valid_colours() > 0 {
                 if let Ok(s2) = build(&w2, k) {
                     if let Call::Ok(r2) = run_ep(Ep::FormulaDirty, &text, &s2, &empty) {
-                        for ci in 0..w2.cs.colours.len() {
-                            if w2.cs.valid[ci] && world.cs.valid[ci] {
-                                let a = sys.book.states_of(coloured.as_bdd(), world.n(), &world.cs.colours[ci]);
-                                let b = s2.book.states_of(r2.as_bdd(), world.n(), &w2.cs.colours[ci]);
+                        // the SAME colour (bit vector) in both networks; sampled colour lists differ between the worlds
+                        for ci in 0..world.cs.colours.len() {
+                            let colour = &world.cs.colours[ci];
+                            let valid_in_stricter = w2.net.is_valid(&interp_of(&w2.net, &w2.cs.bits, colour));
+                            if valid_in_stricter && world.cs.valid[ci] {
+                                let a = sys.book.states_of(coloured.as_bdd(), world.n(), colour);
+                                let b = s2.book.states_of(r2.as_bdd(), world.n(), colour);
                                 out.count("constraint_variant_comparisons");
                                 if a != b {
                                     out.violate(
